@@ -22,6 +22,11 @@ def Y(b):
     return {"$": "y", "v": bytes(b).hex()}
 
 
+def BA(b):
+    """a bytearray: bytes-like, mutable, not `bytes`"""
+    return {"$": "ba", "v": bytes(b).hex()}
+
+
 def T(*items):
     return {"$": "t", "v": list(items)}
 
@@ -53,7 +58,9 @@ def enc(v):
         return v
     if isinstance(v, float):
         return F(v)
-    if isinstance(v, (bytes, bytearray)):
+    if isinstance(v, bytearray):
+        return BA(v)
+    if isinstance(v, bytes):
         return Y(v)
     if isinstance(v, tuple):
         return {"$": "t", "v": [enc(x) for x in v]}
@@ -81,6 +88,8 @@ def dec(s, resolve=None):
         return float(s["v"])
     if tag == "y":
         return bytes.fromhex(s["v"])
+    if tag == "ba":
+        return bytearray.fromhex(s["v"])
     if tag == "t":
         return tuple(dec(x, resolve) for x in s["v"])
     if tag == "d":
@@ -121,6 +130,8 @@ def canon(v, _cfg=None):
         return ("s", v)
     if t is bytes:
         return ("y", v)
+    if t is bytearray:
+        return ("ba", bytes(v))
     if t is tuple:
         return ("t",) + tuple(canon(x, _cfg) for x in v)
     if isinstance(v, list):
